@@ -18,6 +18,9 @@
       runtask  `doit t <args>` through DoitMain + ModuleTaskLoader + TaskControl._process_filter: task params x
                per-task config section (API dict / INI / pyproject.toml) x argv after the task name x pos_arg;
                values observed by the task's action, positionals as pos_arg value or as the further tasks run
+      realrun  the real `doit run` on five probe tasks: continue / single / always / verbosity / num_process / par_type
+               from DOIT_CONFIG, [GLOBAL] / [run] (API dict, doit.cfg, pyproject.toml) and the command line, read off
+               what the run does (which tasks ran, in which thread / process, what was printed)
       creator  @task_params creator via loader.load_tasks (section task:<name>)
       realcmd  the CmdParse each real doit command builds from its own option table
 (P) the statement, evaluated by the Lean driver from the *structured* input (list of assignments, the four sources;
@@ -117,6 +120,7 @@ SIGNATURES = {'var-word-steals-option-value': _sig_var_word_steals_option_value,
               'empty-word-crash': _sig_empty_word_crash}
 
 PATHS = ['parse', 'parse', 'command', 'main', 'premain', 'task', 'runtask', 'creator']
+# + 'realrun' (the real `doit run`, wave 4 #23): generated by realrun_cases(), not by gen_case
 
 
 # ------------------------------------------------------------------------------------------------ cases
@@ -270,7 +274,7 @@ def gen_case(rng, base, path=None):
     return case
 
 
-VIA_DOITMAIN = ('main', 'premain', 'runtask')
+VIA_DOITMAIN = ('main', 'premain', 'runtask', 'realrun')
 
 
 def is_var_word(a):
@@ -336,6 +340,8 @@ def run_impl(case, workdir):
         return optlib.impl_runtask(case, workdir)
     if p == 'realcmd':
         return impl_realcmd(case)
+    if p == 'realrun':
+        return optlib.impl_realrun(case, workdir)
     return optlib.impl_creator(case)
 
 
@@ -401,6 +407,8 @@ def same_result(impl, model, case):
 
 def judge(case, impl, model, spec):
     """-> (violations [(label, note)], divergences [note])"""
+    if case['path'] == 'realrun':
+        return judge_realrun(case, impl, model, spec)
     viol, div = [], []
     path = case['path']
     r1 = impl.get('res')
@@ -575,7 +583,7 @@ def shrink(case, label, cap=120):
                 del c['asgs'][i]
                 c['argv'] = optlib.render(c['asgs'], c['sep'], c['pos'])
                 cands.append(c)
-            for i in range(len(cur['pos'])):
+            for i in range(len(cur['pos']) if cur['path'] != 'realrun' else 0):     # realrun: the probe tasks stay selected
                 c = json.loads(json.dumps(cur))
                 del c['pos'][i]
                 c['argv'] = optlib.render(c['asgs'], c['sep'], c['pos'])
@@ -726,6 +734,17 @@ def account(st, case, impl, model, spec):
                  % (any(is_var_word(p_) for p_ in case['pos']),
                     any(a[0] in ('sDet', 'lDet') and is_var_word(a[-1]) for a in (case['asgs'] or [])),
                     '' in case['argv']))
+    if case['path'] == 'realrun':
+        b = ((impl.get('res') or {}).get('ok') or {}).get('behaviour')
+        if b:
+            st.count('realrun:mode=%s' % b['mode'])
+            st.count('realrun:single=%s,always=%s,continue=%s,verbosity=%s' % (b['single'], b['always'], b['continue'], b['verbosity']))
+        else:
+            st.count('realrun:rejected')
+        for o in ('continue', 'verbosity', 'num_process'):
+            srcs = ''.join(t for t, lst in (('G', case['glob']), ('S', case['ini']), ('D', case['dodo'])) if any(e[0] == o for e in lst))
+            onc = any(o_name in json.dumps(case['asgs']) for o_name in {'continue': ['"c"', 'continue'], 'verbosity': ['"v"', 'verbosity'], 'num_process': ['"n"', 'process']}[o])
+            st.count('realrun:%s-sources=%s%s' % (o, srcs or '-', '+argv' if onc else ''))
     if case.get('api'):
         st.count('api.run_tasks:pos_arg=%s,pos_given=%s,task_opts=%d,section-too=%s'
                  % (bool(case.get('pos_arg')), bool(case.get('api_pos_given')), min(3, len(case['task_opts'])), bool(case['ini'])))
@@ -833,6 +852,9 @@ def corpus_cases():
     out = []
     for name, c in common.load_corpus('C16'):
         c = dict(c)
+        if c.get('path') == 'realrun' and 'spec' not in c:
+            c['spec'] = optlib.run_spec()           # the real table is introspected, not stored in the seed
+            c['n_base'] = len(c['spec'])
         c.setdefault('n_base', 0)
         for k in ('env', 'ini', 'glob', 'dodo', 'pos'):
             c.setdefault(k, [])
@@ -871,6 +893,9 @@ def run(ctx):
         while path is None or (path == 'main' and base is None):
             path = rng.choice(PATHS)
         cases.append(gen_case(rng, base or [], path))
+    rr = realrun_cases(random.Random(master.getrandbits(64)), (90 if ctx.tier == 'quick' else 2500) * ctx.boost)
+    ctx.count('real-run-command:cases', len(rr))
+    cases += rr
     real = realcmd_cases(random.Random(master.getrandbits(64)), 4 if ctx.tier == 'quick' else 60)
     ctx.count('real-command-tables:cases', len(real))
     cases += real
@@ -1002,6 +1027,100 @@ def real_tables():
     except Exception as ex:  # noqa
         out.append(('DodoTaskLoader', None, type(ex).__name__))
     return out
+
+
+def realrun_cases(rng, n):
+    """the real `run` command: continue / single / always / verbosity / num_process / par_type from DOIT_CONFIG, the
+    [GLOBAL] / [run] sections (API dict, doit.cfg, pyproject.toml) and the command line; judged by what the run does"""
+    spec = optlib.run_spec()
+    if spec is None:
+        return []
+    by = dict((o['name'], o) for o in spec)
+    out = []
+
+    def text_of(v):
+        if isinstance(v, bool):
+            return rng.choice(['yes', 'on', '1', 'True']) if v else rng.choice(['no', 'off', '0', 'false'])
+        return str(v)
+
+    def layer(p, typed_ok):
+        res = []
+        for name, pool in optlib.RUN_POOL.items():
+            if rng.random() < p:
+                v = rng.choice(pool)
+                res.append([name, {'val': v}] if (typed_ok and not isinstance(v, str) and rng.random() < 0.5)
+                           else [name, {'raw': text_of(v)}])
+        rng.shuffle(res)
+        return res
+
+    for _ in range(n):
+        mode = rng.choice(['api', 'file', 'toml'])
+        c = {'path': 'realrun', 'spec': spec, 'env': [], 'glob': layer(0.2, mode != 'file'), 'ini': layer(0.35, mode != 'file'),
+             'dodo': [[k, rng.choice(pool)] for k, pool in optlib.RUN_POOL.items() if rng.random() < 0.35],
+             'ini_mode': mode, 'sep': False, 'pos': ['t', 'u', 'a_fail', 'z'], 'malformed': None, 'n_base': len(spec)}
+        asgs = []
+        for name, pool in optlib.RUN_POOL.items():
+            if rng.random() < 0.35:
+                o = by[name]
+                v = rng.choice(pool)
+                if o['type'] == 'bool':
+                    forms = ([['flags', o['short']]] if o['short'] else []) + [['lFlag', o['long']]]
+                    if o['inverse'] and not v:
+                        forms = [['lFlag', o['inverse']]]
+                    asgs.append(rng.choice(forms))
+                else:
+                    forms = ['lEq', 'lDet'] + (['sAtt', 'sDet'] if o['short'] else [])
+                    f = rng.choice(forms)
+                    asgs.append([f, '', o['short'], str(v)] if f in ('sAtt', 'sDet') else [f, o['long'], str(v)])
+        rng.shuffle(asgs)
+        c['asgs'] = asgs
+        if rng.random() < 0.06:
+            c['malformed'] = 'bad-value'
+            if rng.random() < 0.5:
+                c['argv'] = ['-v', 'abc'] + optlib.render(asgs, False, c['pos'])
+            else:
+                c['ini'] = [e for e in c['ini'] if e[0] != 'num_process'] + [['num_process', {'raw': 'many'}]]
+                c['argv'] = optlib.render(asgs, False, c['pos'])
+        else:
+            c['argv'] = optlib.render(asgs, False, c['pos'])
+        out.append(c)
+    return out
+
+
+def judge_realrun(case, impl, model, spec):
+    """(K) behaviour for the model's resolved values, (P) behaviour for the specification's values, against what the
+    run did (continue is only visible in a serial run, verbosity not in a process run: compared when observed)"""
+    viol, div = [], []
+    r1 = impl.get('res') or {}
+
+    def cmp_(want_vals, label):
+        want = optlib.run_behaviour(want_vals)
+        got = r1['ok']['behaviour']
+        bad = [(k, got[k], want[k]) for k in ('mode', 'single', 'always', 'continue', 'verbosity')
+               if got[k] is not None and got[k] != want[k]]
+        if bad:
+            k, g, w_ = bad[0]
+            return '`doit run %s`: the run shows %s=%r, %s gives %r (%s)' % (' '.join(case['argv']), k, g, label, w_,
+                                                                            'tasks run: %s' % impl.get('ran'))
+        return None
+
+    mres = model['res']
+    if 'err' in mres or 'err' in r1:
+        if ('err' in mres) != ('err' in r1) or ('err' in r1 and r1['err'] == 'crash'):
+            div.append('M4/realrun: impl %s model %s' % (canon(r1)[:200], canon(res_key(mres))[:200]))
+        if case.get('malformed') and ('err' not in r1 or r1['err'] == 'crash' or impl.get('exit') != 3):
+            viol.append(('reject', 'ill-typed value for a `run` option was not rejected with exit code 3: %s' % canon(impl)[:200]))
+        elif 'err' in r1 and not case.get('malformed') and spec is not None and 'vals' in spec['expect']:
+            viol.append(('roundtrip', 'well-formed `doit run %s` rejected: %s' % (' '.join(case['argv']), canon(r1)[:200])))
+        return viol, div
+    note = cmp_(mres['ok']['vals'], 'the model')
+    if note:
+        div.append('M4/realrun: ' + note)
+    if spec is not None and spec['hyp_ok'] and model.get('wf') and 'vals' in spec['expect']:
+        note = cmp_(spec['expect']['vals'], 'the property (cmdline > DOIT_CONFIG > [run] > [GLOBAL] > default)')
+        if note:
+            viol.append(('precedence', note))
+    return viol, div
 
 
 def _real_parser(label):
